@@ -1274,3 +1274,104 @@ Theorem C03_p_mp_checked :
 Proof. exact p_mp_checked. Qed.
 Print Assumptions C03_p_mp_checked.
 
+
+Require Import LV.Base LV.VV LV.VVFacts LV.Path LV.PathSpec LV.PathTerm LV.PathDistinct LV.PathApi LV.Prog LV.Objects LV.Exec LV.Atomic LV.Ops LV.Check LV.AtomicFacts LV.AtomicCoherence LV.AtomicCoRR LV.AtomicClosure LV.AtomicBridge LV.NotifyFacts LV.ClockFacts LV.SyncMono LV.ExecFacts LV.AtomicRun LV.AtomicRun2 LV.AtomicRun3 LV.AtomicRun4.
+
+(* NON-VACUITY (AtomicRun4.v): a generic checker over whole explorations with a soundness theorem, the ring hypothesis established by it, and for a concrete two-thread program the run theorems with NO remaining hypothesis -- in all 25 iterations, the replaying ones included *)
+(* if the checker answers (true, true), the checked predicate holds at every micro-operation of every state reachable by steps in the iteration of every explored path *)
+Theorem C03_explore_chk_sound :
+  forall (chk : exec -> nat -> micro -> bool) (ifuel fuel : nat) (p : prog) (pa0 : path),
+       explore_chk chk ifuel fuel p pa0 true = (true, true) ->
+       forall pa : path,
+       Explored fuel p pa0 pa ->
+       forall (e : exec) (me : nat) (t : thread) (m : micro) (rest : list micro),
+       steps (init_exec p pa) e ->
+       e_active e = Some me ->
+       nth_error (e_threads e) me = Some t ->
+       t_cont t = m :: rest ->
+       chk (upd_thread e me (fun t0 : thread => th_set_cont t0 rest)) me m = true.
+Proof. exact explore_chk_sound. Qed.
+Print Assumptions C03_explore_chk_sound.
+
+(* ring room established by the checker *)
+Theorem C03_ring_checked_RunOK3 :
+  forall (a ifuel fuel : nat) (p : prog) (pa0 pa : path),
+       explore_chk (ring_chk a) ifuel fuel p pa0 true = (true, true) ->
+       Explored fuel p pa0 pa -> RunOK3 p pa a.
+Proof. exact ring_checked_RunOK3. Qed.
+Print Assumptions C03_ring_checked_RunOK3.
+
+(* the hypotheses of run_goodAt2 hold on every explored path of the program (two threads, each a relaxed store and a relaxed load of one atomic) *)
+Theorem C03_p_sl_RunOK2 :
+  forall pa : path, Explored 2000 p_sl (initial_path cfgT) pa -> RunOK2 p_sl pa 0.
+Proof. exact p_sl_RunOK2. Qed.
+Print Assumptions C03_p_sl_RunOK2.
+
+(* NO HYPOTHESIS LEFT: in every state reachable in every iteration of the exploration of that program the invariant holds *)
+Theorem C03_p_sl_all_good :
+  forall (pa : path) (e : exec),
+       Explored 2000 p_sl (initial_path cfgT) pa -> steps (init_exec p_sl pa) e -> GoodAt 0 e.
+Proof. exact p_sl_all_good. Qed.
+Print Assumptions C03_p_sl_all_good.
+
+(* RMW atomicity likewise *)
+Theorem C03_p_sl_atomicity :
+  forall (pa : path) (e : exec) (s : atomic_state) (r sl sid : nat),
+       Explored 2000 p_sl (initial_path cfgT) pa ->
+       steps (init_exec p_sl pa) e ->
+       get_atomic e 0 = Some s ->
+       r < at_cnt s ->
+       st_rmw_src (get_store s r) = Some (sl, sid) ->
+       sl < at_cnt s /\
+       vv_lt (mo s sl) (mo s r) = true /\
+       (forall x : nat, x < at_cnt s -> vv_lt (mo s sl) (mo s x) && vv_lt (mo s x) (mo s r) = false).
+Proof. exact p_sl_atomicity. Qed.
+Print Assumptions C03_p_sl_atomicity.
+
+(* CoRR / CoWR / RMW coherence between any two states of any iteration *)
+Theorem C03_p_sl_coherence :
+  forall (pa : path) (e e' : exec) (s : atomic_state) (t i j : nat),
+       Explored 2000 p_sl (initial_path cfgT) pa ->
+       steps (init_exec p_sl pa) e ->
+       steps e e' ->
+       get_atomic e 0 = Some s ->
+       t < MAX_THREADS ->
+       i < at_cnt s ->
+       j < at_cnt s ->
+       vv_lt (mo s i) (mo s j) = true ->
+       is_seen_by_current (st_seen (get_store s j)) (caus_of e t) = true ->
+       exists s' : atomic_state,
+         get_atomic e' 0 = Some s' /\
+         (forall (ly : option nat) (o : ord) (l : list nat),
+          match_load_to_stores s' t (vv_inc (caus_of e' t) t) ly o = Some l -> ~ In i l) /\
+         (forall l : list nat, match_rmw_to_stores s' = Some l -> ~ In i l).
+Proof. exact p_sl_coherence. Qed.
+Print Assumptions C03_p_sl_coherence.
+
+(* the same for the begin path of every record Builder::check returns *)
+Theorem C03_p_sl_check_all_good :
+  forall (ifuel : nat) (recs : list iter_record) (fin : run_end) (ck : option path)
+         (r : iter_record) (e : exec),
+       check ifuel 2000 p_sl = (recs, fin, ck) ->
+       In r recs -> steps (init_exec p_sl (ir_begin r)) e -> GoodAt 0 e.
+Proof. exact p_sl_check_all_good. Qed.
+Print Assumptions C03_p_sl_check_all_good.
+
+(* one concrete reachable access at which every clause of SideOK holds non-trivially: a candidate list of length >= 2, the replayed index in it, three stores in the ring *)
+Theorem C03_side_instance :
+  steps (init_exec p_sl (initial_path cfgT)) e17 /\
+       e_active e17 = Some 1 /\
+       nth_error (e_threads e17) 1 = Some t17 /\
+       t_cont t17 = MLoadPost 0 Relaxed None :: rest17 /\
+       SideOK 0 e17p 1 (MLoadPost 0 Relaxed None) /\
+       (exists (s : atomic_state) (t0 : thread) (l : list nat) (e2 : exec) 
+        (idx : nat),
+          get_atomic e17p 0 = Some s /\
+          get_thread e17p 1 = Some t0 /\
+          micro_seed s 1 t0 (MLoadPost 0 Relaxed None) = Some (Some l) /\
+          2 <= length l /\
+          choose_store (causality_inc e17p 1) (Some l) = (e2, inl idx) /\
+          In idx l /\ at_cnt s = 3 /\ at_cnt s < MAX_ATOMIC_HISTORY).
+Proof. exact side_instance. Qed.
+Print Assumptions C03_side_instance.
+
